@@ -190,18 +190,11 @@ def check_colors(case, rec):
         if l in rare:
             if c != (0.0, 0.0, 0.0):
                 raise Violation("colors-rare-not-black", f"label {l!r} (count {cnt[l]} < min_count {mc}) gets {c}")
-        elif which == "hls" and c == (0.0, 0.0, 0.0):
-            raise Violation("colors-frequent-black", f"label {l!r} (count {cnt[l]}) is black")
-        elif which == "tableau" and c == (0.0, 0.0, 0.0):
-            raise Violation("colors-frequent-black", f"label {l!r} (count {cnt[l]}) is black")
     if which == "hls":
+        # distinct labels -> distinct colours: among the frequent labels, and between a frequent label and the black of a rare one
         freq = [c for l, c in seen.items() if l not in rare]
-        if len(set(freq)) != len(freq):
+        if len(set(freq)) != len(freq) or (rare and (0.0, 0.0, 0.0) in freq):
             raise Violation("colors-hls-not-distinct", f"distinct labels share a colour: {seen}")
-    np.random.seed(seed)
-    again = [tuple(float(x) for x in c) for c in f(lab, min_count=mc)]
-    if again != cols:
-        raise Violation("colors-seed", "same NumPy seed gave different colours")
 
 
 def check_scatter(case, rec):
@@ -221,8 +214,6 @@ def check_scatter(case, rec):
         want = sorted(((float(x), float(y)), float(c)) for (x, y), c in cnt.items())
         if got != want:
             raise Violation("scatter-points", f"drawn (point, colour value) {got[:6]} != (distinct point, multiplicity) {want[:6]}")
-        if case.get("sort", True) and arr != sorted(arr):
-            raise Violation("scatter-order", "densest points are not drawn last")
     finally:
         plt.close("all")
 
